@@ -155,4 +155,238 @@ theorem C07_rerun (g : Node) (hwf : WF g) (d : Option Path) {σ} (sem : Signal.S
 theorem C07_refetch (cfg : Cfg) (g : Node) (hwf : WF g) (hone : AtMostOne cfg g) (d : Option Path) :
     ∀ a ∈ inDom g.children, fetchVal (img cfg d g) a = fetchVal g a := fetchVal_img cfg g hwf hone d
 
+/-! ## concrete graphs: non-vacuity, and what the pinned code does to them -/
+
+def v (k : Nat) : Val := .t [k]
+def chn (l : Lbl) (x : Val) : DChan := ⟨l, x, true⟩
+/-- a plain node: signal inputs `run`=0, `accumulate_and_run`=1; outputs `ran`=0, `failed`=1 -/
+def core0 (label cls : Nat) (kind : Kind) (ins outs : List DChan) : Core :=
+  { label, cls, kind, ins, outs, sigIns := [0, 1], sigOuts := [0, 1], received := [], running := false,
+    failed := false, exec := .none, bodyExec := .none, cached := none, starting := [], inLinks := [],
+    outLinks := [], detached := none, prov := [] }
+def noC : CG := CG.ofTables [] []
+def leaf (label cls : Nat) (ins outs : List DChan) : Node := .mk (core0 label cls .leaf ins outs) [] noC noC
+
+theorem wf_leaf (label cls : Nat) (ins outs : List DChan) : WF (leaf label cls ins outs) := by
+  simp only [leaf, WF, WFL]
+  exact ⟨by decide, by decide, by decide, by decide, by decide, cgCheck_sound _ _ _ _ (by decide),
+    cgCheck_sound _ _ _ _ (by decide), by simp [core0], by simp [core0, Kind.hasLinks], trivial⟩
+
+/-- what a round trip shows (`none` = the pickle cannot be loaded) -/
+def shows (cfg : Cfg) (g : Node) : Option (List Rec) :=
+  match load cfg (save none g) with
+  | .ok g' => some (obs [] g')
+  | .error _ => none
+def showsFile (cfg : Cfg) (g : Node) : Option (List Rec) :=
+  match fileLoad cfg g.core.cls (save none g) with
+  | .ok g' => some (obs [] g')
+  | .error _ => none
+def errorOf (cfg : Cfg) (g : Node) : Option Err :=
+  match load cfg (save none g) with
+  | .ok _ => none
+  | .error e => some e
+/-- a reading taken on the graph a round trip returns -/
+def after {α} (cfg : Cfg) (g : Node) (f : Node → α) : Option α :=
+  match load cfg (save none g) with
+  | .ok g' => some (f g')
+  | .error _ => none
+
+/-- W1 — workflow `w`: `c.a ← a.o` then `c.a ← b.o` (so `c.a.connections = [b.o, a.o]`) -/
+def w1kids : List Node :=
+  [leaf 1 1 [chn 0 (v 1)] [chn 0 (v 11)], leaf 2 2 [chn 0 (v 2)] [chn 0 (v 12)], leaf 3 3 [chn 0 .nd] [chn 0 .nd]]
+def w1 : Node :=
+  .mk (core0 0 100 .workflow [] []) w1kids
+    (CG.ofTables [((3, 0), [(2, 0), (1, 0)])] [((1, 0), [(3, 0)]), ((2, 0), [(3, 0)])]) noC
+
+theorem wf_w1 : WF w1 := by
+  simp only [w1, w1kids, WF, WFL]
+  refine ⟨by decide, by decide, by decide, by decide, by decide, cgCheck_sound _ _ _ _ (by decide),
+    cgCheck_sound _ _ _ _ (by decide), by decide, by simp [core0, Kind.hasLinks], rfl, wf_leaf _ _ _ _, rfl,
+    wf_leaf _ _ _ _, rfl, wf_leaf _ _ _ _, trivial⟩
+
+/-- non-vacuity of the full statement: a graph with a doubly connected input, and its round trip -/
+example : shows Cfg.repaired w1 = some (obs [] w1) := by decide
+example : showsFile Cfg.repaired w1 = some (obs [] w1) := by decide
+example : ∃ g', load Cfg.repaired (save none w1) = .ok g' ∧ obs [] g' = obs [] w1 := C07_roundtrip w1 wf_w1
+
+/-- KF-C07-1: the pinned restore reverses the priority of a multiply connected input: `c.a` comes back
+as `[a.o, b.o]`, and `fetch` now takes `a`'s value (11) where it took `b`'s (12) -/
+theorem C07_restore_reverses_priority :
+    shows Cfg.pinned w1 ≠ some (obs [] w1) ∧
+    after Cfg.pinned w1 (fun g' => (g'.data.inl (3, 0), fetchVal g' (3, 0))) = some ([(1, 0), (2, 0)], some (v 11)) ∧
+    w1.data.inl (3, 0) = [(2, 0), (1, 0)] ∧ fetchVal w1 (3, 0) = some (v 12) := by decide
+
+/-- hence the full statement is FALSE of the tree as it is -/
+theorem C07_pinned_statement_false : ¬ RoundTripStatement Cfg.pinned := by
+  intro h
+  obtain ⟨g', h1, h2⟩ := h w1 wf_w1
+  have := C07_restore_reverses_priority.1
+  simp only [shows, h1, h2] at this
+  exact this rfl
+
+/-- the file back end re-states the TOP composite a second time, so the pinned code reverses its
+lists twice (w1 survives `save()`/`load()`) — but a nested composite only once -/
+def w1nested : Node :=
+  .mk (core0 9 101 .workflow [] []) [.mk (core0 0 100 .macro [] []) w1kids
+    (CG.ofTables [((3, 0), [(2, 0), (1, 0)])] [((1, 0), [(3, 0)]), ((2, 0), [(3, 0)])]) noC] noC noC
+theorem C07_file_double_restore :
+    showsFile Cfg.pinned w1 = some (obs [] w1) ∧ showsFile Cfg.pinned w1nested ≠ some (obs [] w1nested) ∧
+    showsFile Cfg.repaired w1nested = some (obs [] w1nested) := by decide
+
+/-- W2 — macro with hand-made signals: `a.ran` fires `b.run` and then `c.run` (wired `c` first) -/
+def w2kids : List Node := [leaf 1 1 [] [], leaf 2 2 [] [], leaf 3 3 [] []]
+def w2 : Node :=
+  .mk { core0 0 100 .macro [] [] with starting := [1] } w2kids noC
+    (CG.ofTables [((2, 0), [(1, 0)]), ((3, 0), [(1, 0)])] [((1, 0), [(2, 0), (3, 0)])])
+
+theorem wf_w2 : WF w2 := by
+  simp only [w2, w2kids, WF, WFL]
+  refine ⟨by decide, by decide, by decide, by decide, by decide, cgCheck_sound _ _ _ _ (by decide),
+    cgCheck_sound _ _ _ _ (by decide), by decide, ?_, rfl, wf_leaf _ _ _ _, rfl, wf_leaf _ _ _ _, rfl,
+    wf_leaf _ _ _ _, trivial⟩
+  simp only [core0, Kind.hasLinks, if_true]
+  exact ⟨by decide, by decide, by decide, by decide⟩
+
+/-- every child just emits `ran` -/
+def emitRan : Signal.Sem Unit := ⟨fun _ i => ((), false, [4 * i])⟩
+def firedOrder (g : Node) : List Nat :=
+  (Signal.compositeRun emitRan (toGraph g) 10 (Signal.S.init () fun _ => [])).fired
+
+/-- KF-C07-2: the pinned restore rebuilds every signal output's list from the iteration over the
+inputs: `a.ran` comes back firing `c` before `b`, and the execution order of a later run changes
+from a, b, c to a, c, b; the repaired restore keeps both -/
+theorem C07_firing_order_changes :
+    shows Cfg.pinned w2 ≠ some (obs [] w2) ∧ firedOrder w2 = [1, 2, 3] ∧
+    after Cfg.pinned w2 (fun g' => (g'.sig.outl (1, 0), firedOrder g')) = some ([(3, 0), (2, 0)], [1, 3, 2]) ∧
+    after Cfg.repaired w2 (fun g' => (g'.sig.outl (1, 0), firedOrder g')) = some ([(2, 0), (3, 0)], [1, 2, 3]) := by
+  decide
+
+/-- W3 — a macro whose argument `x` no child uses: its interface node was purged, the value link
+still names it (label 7 is no child) -/
+def w3 : Node :=
+  .mk { core0 0 100 .macro [chn 0 (v 5)] [chn 0 .nd] with inLinks := [(0, (7, 0))], outLinks := [((1, 0), 0)] }
+    [leaf 1 1 [chn 0 (v 1)] [chn 0 .nd]] noC noC
+
+/-- KF-C07-3: such a macro can be pickled but never unpickled (`KeyError`), whatever the restore order -/
+theorem C07_dangling_link_unloadable :
+    errorOf Cfg.pinned w3 = some .key ∧ errorOf Cfg.repaired w3 = some .key := by decide
+
+/-- W4 — a macro pickled while it runs: child `s` (input value-linked to the macro's `x`) is running -/
+def w4 : Node :=
+  .mk { core0 0 100 .macro [chn 0 (v 5)] [chn 0 .nd] with
+          inLinks := [(0, (1, 0))], outLinks := [((1, 0), 0)], running := true }
+    [.mk { core0 1 1 .leaf [chn 0 (v 5)] [chn 0 .nd] with running := true } [] noC noC] noC noC
+
+theorem wf_w4 : WF w4 := by
+  simp only [w4, WF, WFL]
+  refine ⟨by decide, by decide, by decide, by decide, by decide, cgCheck_sound _ _ _ _ (by decide),
+    cgCheck_sound _ _ _ _ (by decide), by decide, ?_, rfl, ?_, trivial⟩
+  · simp only [core0, Kind.hasLinks, if_true]
+    exact ⟨by decide, by decide, by decide, by decide⟩
+  · exact ⟨by decide, by decide, by decide, by decide, by decide, cgCheck_sound _ _ _ _ (by decide),
+      cgCheck_sound _ _ _ _ (by decide), by decide, by simp [core0, Kind.hasLinks], trivial⟩
+
+/-- KF-C07-4: the pinned code re-forges value links through the value setter, which refuses to write
+the input of a running node: the mid-run pickle cannot be loaded (`RuntimeError`); with the links
+assigned directly it loads and shows the same state, `running` flags included -/
+theorem C07_running_link_unloadable :
+    errorOf Cfg.pinned w4 = some .runtime ∧ shows Cfg.repaired w4 = some (obs [] w4) := by decide
+
+/-- W5 — a child input connected to a channel of a node outside the pickled composite (8 is no child) -/
+def w5 : Node :=
+  .mk (core0 0 100 .workflow [] []) [leaf 1 1 [chn 0 (v 1)] [chn 0 .nd]]
+    (CG.ofTables [((1, 0), [(8, 0)])] []) noC
+
+/-- not `Closed`: the stored string names a label the loader cannot resolve (`KeyError`) -/
+theorem C07_foreign_connection_unloadable :
+    errorOf Cfg.pinned w5 = some .key ∧ errorOf Cfg.repaired w5 = some .key := by decide
+
+/-- non-vacuity of the partial statement on the pinned code: a nested graph (workflow ⊃ macro with
+value links ⊃ leaves) in a partly run, partly failed state with `NOT_DATA`, executor instructions
+and single connections satisfies its hypotheses and round-trips through both back ends -/
+def exInner : Node :=
+  .mk { core0 2 50 .macro [chn 0 (v 7)] [chn 0 (v 9)] with
+          inLinks := [(0, (1, 0))], outLinks := [((2, 0), 0)], starting := [1], exec := .instr 3 }
+    [leaf 1 1 [chn 0 (v 7)] [chn 0 (v 8)],
+     .mk { core0 2 2 .leaf [chn 0 (v 8)] [chn 0 (v 9)] with failed := true, exec := .live } [] noC noC]
+    (CG.ofTables [((2, 0), [(1, 0)])] [((1, 0), [(2, 0)])])
+    (CG.ofTables [((2, 1), [(1, 0)])] [((1, 0), [(2, 1)])])
+def exG : Node :=
+  .mk { core0 0 100 .workflow [] [] with failed := true, prov := [1, 2] }
+    [leaf 1 1 [chn 0 .nd] [chn 0 (v 7)], exInner]
+    (CG.ofTables [((2, 0), [(1, 0)])] [((1, 0), [(2, 0)])]) noC
+
+example : shows Cfg.pinned exG = some (obs [] exG) ∧ showsFile Cfg.pinned exG = some (obs [] exG) := by decide
+
+theorem short_of_table (t : List (Addr × List Addr)) (h : (t.all fun p => decide (p.2.length ≤ 1)) = true) (a : Addr) :
+    (lookupD t a).length ≤ 1 := by
+  unfold lookupD
+  cases hf : t.find? (fun p => decide (p.1 = a)) with
+  | none => simp
+  | some p =>
+    have := List.all_eq_true.mp h p (List.mem_of_find?_eq_some hf)
+    simpa using this
+
+theorem wf_exG : WF exG := by
+  simp only [exG, exInner, WF, WFL]
+  refine ⟨by decide, by decide, by decide, by decide, by decide, cgCheck_sound _ _ _ _ (by decide),
+    cgCheck_sound _ _ _ _ (by decide), by decide, by simp [core0, Kind.hasLinks], rfl, wf_leaf _ _ _ _, rfl, ?_, trivial⟩
+  refine ⟨by decide, by decide, by decide, by decide, by decide, cgCheck_sound _ _ _ _ (by decide),
+    cgCheck_sound _ _ _ _ (by decide), by decide, ?_, rfl, wf_leaf _ _ _ _, rfl, ?_, trivial⟩
+  · simp only [core0, Kind.hasLinks, if_true]
+    exact ⟨by decide, by decide, by decide, by decide⟩
+  · exact ⟨by decide, by decide, by decide, by decide, by decide, cgCheck_sound _ _ _ _ (by decide),
+      cgCheck_sound _ _ _ _ (by decide), by decide, by simp [core0, Kind.hasLinks], trivial⟩
+
+theorem one_exG : AtMostOne Cfg.pinned exG := by
+  simp only [exG, exInner, leaf, AtMostOne, AtMostOneL, noC, CG.ofTables]
+  refine ⟨fun _ => short_of_table _ (by decide), fun _ => short_of_table _ (by decide), ?_, ?_, trivial⟩
+  · exact ⟨fun _ => short_of_table _ (by decide), fun _ => short_of_table _ (by decide), trivial⟩
+  · refine ⟨fun _ => short_of_table _ (by decide), fun _ => short_of_table _ (by decide), ?_, ?_, trivial⟩
+    · exact ⟨fun _ => short_of_table _ (by decide), fun _ => short_of_table _ (by decide), trivial⟩
+    · exact ⟨fun _ => short_of_table _ (by decide), fun _ => short_of_table _ (by decide), trivial⟩
+
+theorem settled_exG : Settled exG := by
+  simp only [exG, exInner, leaf, Settled, SettledL]
+  refine ⟨by simp [core0, Kind.hasLinks], ⟨by simp [core0, Kind.hasLinks], trivial⟩, ?_, trivial⟩
+  refine ⟨fun _ => ⟨?_, ?_⟩, ⟨by simp [core0, Kind.hasLinks], trivial⟩, ⟨by simp [core0, Kind.hasLinks], trivial⟩, trivial⟩
+  · intro p hp w hw
+    simp only [List.mem_singleton] at hp
+    subst hp
+    simp only [core0, valOf, chn, List.find?, decide_true, Option.map_some, Option.some.injEq] at hw
+    subst hw
+    simp [QuietL, Quiet, core0, Node.core, setVal, chn, lookupLink]
+  · intro p hp w hw
+    simp only [List.mem_singleton] at hp
+    subst hp
+    have : w = v 9 := by
+      have h2 : outValOf [.mk (core0 1 1 .leaf [chn 0 (v 7)] [chn 0 (v 8)]) [] noC noC,
+          .mk { core0 2 2 .leaf [chn 0 (v 8)] [chn 0 (v 9)] with failed := true, exec := .live } [] noC noC] (2, 0)
+          = some (v 9) := by decide
+      rw [h2] at hw
+      exact (Option.some.inj hw).symm
+    subst this
+    simp [setVal, core0, chn]
+
+/-- … and it satisfies the hypotheses of the partial theorem, which therefore applies to it -/
+example : (∃ g', load Cfg.pinned (save none exG) = .ok g' ∧ obs [] g' = obs [] exG) :=
+  (C07_roundtrip_partial Cfg.pinned exG wf_exG one_exG (fun _ => settled_exG)).1
+example : (obs [] exG).length = 5 := by decide
+
 end PwVerif.C07
+
+#print axioms PwVerif.C07.C07_roundtrip
+#print axioms PwVerif.C07.C07_roundtrip_file
+#print axioms PwVerif.C07.C07_roundtrip_twice
+#print axioms PwVerif.C07.C07_roundtrip_partial
+#print axioms PwVerif.C07.C07_unordered_sides
+#print axioms PwVerif.C07.C07_child_alone
+#print axioms PwVerif.C07.C07_rerun
+#print axioms PwVerif.C07.C07_refetch
+#print axioms PwVerif.C07.C07_restore_reverses_priority
+#print axioms PwVerif.C07.C07_pinned_statement_false
+#print axioms PwVerif.C07.C07_file_double_restore
+#print axioms PwVerif.C07.C07_firing_order_changes
+#print axioms PwVerif.C07.C07_dangling_link_unloadable
+#print axioms PwVerif.C07.C07_running_link_unloadable
+#print axioms PwVerif.C07.C07_foreign_connection_unloadable
